@@ -192,7 +192,7 @@ func runMode(ctx context.Context, c *Case, m Mode, dir string) (res ModeResult) 
 		}
 		res.Verdicts = nil
 	}
-	if res.Stats["rowid-alias-null-assigned"] > 0 {
+	if res.Stats["rowid-alias-null-assigned"] > 0 || aliasRisk(&c.Des, before) {
 		res.TieSkip = "rowid-alias-null"
 	}
 	if m.Tx == "prefix" {
@@ -290,6 +290,8 @@ func main() {
 		runCLI(ctx, w, *tier, tmp, *outDir, *only)
 	case "plan":
 		runPlan(ctx, w, *tier, *outDir, *only)
+	case "fault":
+		runFault(ctx, w, *tier, tmp, *outDir, *only)
 	default:
 		fmt.Fprintln(os.Stderr, "unknown mode", *mode)
 		os.Exit(2)
@@ -364,6 +366,9 @@ func report(w *out.W, cr caseResult, dbg, viol *os.File) {
 			w.Count("prefix-run")
 		} else if r.ErrClass != "" {
 			w.Count(r.ErrClass)
+			if os.Getenv("ROWS_DEBUG_ERR") != "" {
+				fmt.Fprintf(dbg, "%s %s: %s\n", id, r.ErrClass, r.ErrText)
+			}
 			if r.ErrClass == "refused-no-such-table" || r.ErrClass == "refused-other" || r.ErrClass == "refused-syntax" || r.ErrClass == "refused-schema-error" || r.ErrClass == "refused-no-such-column" {
 				fmt.Fprintf(dbg, "%s %s edits=%v: %s\n", id, r.ErrClass, c.Edits, r.ErrText)
 				if r.ErrClass == "refused-other" || r.ErrClass == "refused-syntax" {
@@ -431,4 +436,26 @@ func runAPI(ctx context.Context, w *out.W, tier, tmp, outDir, only string) {
 		ms = append(ms, apiModes[4+i%3])
 		return ms
 	}, tmp, outDir)
+}
+
+// aliasRisk: some desired table makes a column the rowid alias (single INTEGER PRIMARY KEY of a rowid
+// table) that is not the alias now and holds NULLs (or does not exist yet) in a populated table: the
+// engine assigns rowids there, which the model does not have.
+func aliasRisk(des *Schema, before *Dump) bool {
+	for i := range des.Tables {
+		t := &des.Tables[i]
+		if len(t.PK) != 1 || t.WithoutRowid {
+			continue
+		}
+		c := t.col(t.PK[0])
+		tb := before.Tables[t.Name]
+		if c == nil || strings.ToLower(c.Type) != "integer" || tb == nil || len(tb.Rows) == 0 {
+			continue
+		}
+		bi := tb.colIdx(c.Name)
+		if bi < 0 || (!isRowidAlias(tb, bi) && hasNull(tb, bi)) {
+			return true
+		}
+	}
+	return false
 }
